@@ -105,9 +105,16 @@ def disk_ok(fs):
     """netCDF classic restrictions for the disk entry points"""
     for i, (n, l, u) in enumerate(fs['dims']):
         if u:
+            if not any(n in v['dims'] for v in fs['vars']):
+                return False   # its length on disk would be 0
             for v in fs['vars']:
                 if n in v['dims'] and v['dims'][0] != n:
                     return False
+    for v in fs['vars']:
+        # a cell equal to the declared fill reads back masked from disk
+        if v.get('fill') is not None and v['dtype'] != 'S1':
+            if any(x == v['fill'] for x in v['data']):
+                return False
     return True
 
 
@@ -265,6 +272,19 @@ def judge(r, case, out, models, m0, d, edges, entry):
         if tag == 'stacked':
             klass = ('masked' if mv.masked else 'plain') + \
                 ('/lead' if mv.dims[0] == d else '/inner')
+        if light and mv.masked:
+            # stack_files copies through Pseudo2NetCDF, which stores masked
+            # cells as the declared fill value (netCDF convention): a cell
+            # that should be masked may be unmasked and hold the fill value
+            la = A.plain(ov[...])
+            fv = getattr(ov, 'fill_value', getattr(ov, '_FillValue', None))
+            if fv is not None and np.shape(la) == np.shape(exp):
+                asfill = np.ma.getmaskarray(exp) & (
+                    np.asarray(np.ma.getdata(la)) == fv)
+                if (asfill & ~np.ma.getmaskarray(la)).any():
+                    r.label('masked-cells-stored-as-fill')
+                ov = np.ma.MaskedArray(np.asarray(np.ma.getdata(la)),
+                                       mask=np.ma.getmaskarray(la) | asfill)
         msg = S.cmp_array(ov, exp, 'variable %s%r' % (name, mv.dims),
                           bits=True)
         if msg:
